@@ -369,7 +369,8 @@ def _choose_mie_vs_multisphere(spheres):
         msg = ("Sphere centers and radii must be set for scattering " +
                "calculations with more than one sphere.")
         raise InvalidScatterer(spheres, msg)
-    elif any([not np.isscalar(r) for r in radii]):
+    elif any([not np.isscalar(r) and
+              not (isinstance(r, np.ndarray) and r.ndim == 0) for r in radii]):
         warn("HoloPy's multisphere theory can't handle coated spheres." +
              "Using Mie theory.")
         theory = Mie()
